@@ -14,10 +14,12 @@ import (
 // Restarts under a different queue bound (an operator lowers, raises or removes the bound between two runs). The
 // statement's promises do not depend on the bound staying the same: what was accepted and not yet handed out survives the
 // restart, comes out exactly once, in acceptance order - also when more batches are waiting than the new bound allows;
-// the bound then only decides about NEW submissions. Judged with a plain list: at every moment the batches handed out so
+// the bound then only decides about NEW submissions: they are refused while the backlog is at or above the bound of the
+// current run and accepted again once it has drained below it. Judged with a plain list: at every moment the batches handed out so
 // far are a prefix of the batches accepted so far (in acceptance order), and at the end they are all of them.
 func boundChangeProbes(r *vk.Run, rng *rand.Rand, n int) {
-	for c := 0; c < n; c++ {
+	failed := 0
+	for c := 0; c < n && failed < 5; c++ {
 		bounds := []int{[]int{0, 3, 5, 8}[rng.Intn(4)], []int{1, 2, 3, 0}[rng.Intn(4)], []int{0, 1, 4}[rng.Intn(3)]}
 		im := world.NewImage()
 		names := map[string]string{}
@@ -26,6 +28,7 @@ func boundChangeProbes(r *vk.Run, rng *rand.Rand, n int) {
 		ok := true
 		fail := func(clause, detail string) {
 			ok = false
+			failed++
 			r.Violation(clause, fmt.Sprintf("restarts under changing queue bounds %v: %s; calls: %s", bounds, detail, strings.Join(trace, " ")), map[string]any{"bounds": bounds, "calls": trace, "accepted": accepted, "handed_out": out})
 		}
 		id := 0
@@ -42,8 +45,24 @@ func boundChangeProbes(r *vk.Run, rng *rand.Rand, n int) {
 					id++
 					name := fmt.Sprintf("q%d-%d", c, id)
 					names[contentKey(txsOf(name))] = name
+					// the bounded-FIFO model under the bound of THIS run: a submission is refused while as many batches as
+					// the bound, or more (a backlog accepted under an earlier, higher bound), are waiting; otherwise it is accepted
+					waiting, bound := len(accepted)-len(out), bounds[phase]
+					full := bound > 0 && waiting >= bound
 					o := p.submit(chainID, &coresequencer.Batch{Transactions: txsOf(name)})
 					trace = append(trace, "sub("+name+")="+o.Kind)
+					if full {
+						r.Hit("bound-change-submission-at-or-above-bound")
+						if waiting > bound {
+							r.Hit("bound-change-submission-with-backlog-above-bound")
+						}
+					}
+					switch {
+					case o.Kind == "ok" && full:
+						fail("bound", fmt.Sprintf("submission of %s was accepted although %d accepted batches have not been handed out yet and the bound of this run is %d", name, waiting, bound))
+					case o.Kind != "ok" && !full:
+						fail("admission", fmt.Sprintf("submission of %s was refused (%s) although only %d accepted batches are waiting and the bound of this run is %d", name, o.Err, waiting, bound))
+					}
 					if o.Kind == "ok" {
 						accepted = append(accepted, name)
 					}
